@@ -422,3 +422,43 @@ def combine_c13(ctx, name, v, py_why, crashed=False):
         st["python_only_findings"] += 1
         return "python predicate only: " + py_why
     return None
+
+
+def is_chunk_replay(path):
+    try:
+        with open(path) as f:
+            return any(l.startswith("abs-chunk geom ") for l in f)
+    except OSError:
+        return False
+
+
+def replay_c13(ctx, path):
+    """re-runs the script of a C13 replay file (and its twin without chunks) on the tree under test and re-judges the record with
+    `sfmodel abs-meta chunks`"""
+    text = open(path).read()
+    geom = next(l[len("abs-chunk "):].strip() for l in text.split("\n") if l.startswith("abs-chunk geom "))
+    kv = dict(t.split("=", 1) for t in geom.split()[1:] if "=" in t)
+    meta = {}
+    if kv.get("own"):
+        meta["own"] = {bytes.fromhex(a): int(b) for a, b in (x.split(":") for x in kv["own"].split(","))}
+    if kv.get("strings"):
+        meta["strings"] = True
+    script = text.split("--- script", 1)[1].lstrip("\n")
+    ctx.sfh()
+    lines, rc, err = ctx.script(script)
+    if rc != 0:
+        lines = list(lines) + ["ABORT status=%d" % rc]
+    tw = chunk_twin_script(script)
+    tl = ctx.script(tw)[0]
+    for op, got in C.split_ops(script, clean_lines(lines)):
+        print("%-50s -> %s" % (" ".join(op)[:50], " | ".join(g[:110] for g in got[:6]) + (" …" if len(got) > 6 else "")))
+    v = judge_c13(ctx, [("replay", kv.get("cont", "wav"), meta, script, lines, (tw, tl))])["replay"]
+    if rc != 0:
+        print(err[-1500:])
+    if v.ok:
+        print("sfmodel abs-meta chunks: ok %s" % v.info)
+        print("replay: the record is accepted by the C13 clauses (no violation on this tree)")
+    else:
+        for (t, r) in v.fails:
+            print("FAILS " + describe_c13(t, r))
+        ctx.report(path)
